@@ -53,6 +53,11 @@ class ServerCfg(object):
 
     def settings(self, sc):
         st = sc.server_settings()
+        # the server also accepts the suites of the "other suite" offers
+        for extra in ("aes128gcm", "aes256gcm", "chacha20-poly1305",
+                      "aes128", "aes256"):
+            if extra not in st.cipherNames:
+                st.cipherNames = list(st.cipherNames) + [extra]
         st.ticketKeys = list(self.keys)
         st.ticketLifetime = LIFETIME
         if not self.keys:
@@ -85,7 +90,13 @@ def scen_of(mech):
 
 OFFERS = ["none", "held", "held-noems", "held-noetm", "ticket-flip-first",
           "ticket-flip-mid", "ticket-flip-last", "unknown-id", "foreign",
-          "held-refreshed-clock"]
+          "held-refreshed-clock", "held-other-hash", "held-same-hash"]
+# suite the client offers instead of the session's: (other PRF hash / other
+# suite, same hash) per original cipher name
+OTHER = {"aes128gcm": ("aes256gcm", "chacha20-poly1305"),
+         "chacha20-poly1305": ("aes256gcm", "aes128gcm"),
+         "aes256gcm": ("aes128gcm", None),
+         "aes128": ("aes256", None), "aes256": ("aes128", None)}
 CLOSES = ["clean", "fatal", "abrupt"]
 
 
@@ -149,6 +160,19 @@ def apply_offer(st, offer):
     elif offer == "foreign":
         srv = 1
         altered = True
+    elif offer in ("held-other-hash", "held-same-hash"):
+        # the session is offered together with another cipher suite only:
+        # TLS 1.3 may resume iff the PRF hash is the same, TLS <= 1.2 only
+        # with the very same suite
+        info = S.ALL_INFOS[st.meta["suite"] if st.meta else
+                           st.mech["suite"]]
+        if not tls13 and info.mode != "CBC":
+            return None, cset, srv, False, False
+        alt = OTHER.get(info.setting_cipher())
+        alt = alt and alt[0 if offer == "held-other-hash" else 1]
+        if alt is None:
+            return None, cset, srv, False, False
+        cset["cipherNames"] = [alt]
     elif offer == "held-refreshed-clock":
         # a client whose notion of the ticket's receipt time is wrong keeps
         # offering it after the lifetime
@@ -175,6 +199,9 @@ def eligible(st, meta, srv_index, offer_sess, offer="held"):
     srv = st.servers[srv_index]
     age = st.now - meta["issued"]
     mech = st.mech
+    if offer == "held-other-hash" or (offer == "held-same-hash" and
+                                      mech["version"] < (3, 4)):
+        return False, "session's suite (hash) not offered"
     ok_ticket = mech["tickets"] and meta["has_ticket"] and \
         age <= LIFETIME and meta["key_epoch"] in srv_live_epochs(srv) and \
         not offer.startswith("ticket-flip") and offer != "unknown-id"
@@ -352,7 +379,12 @@ def step(st, ev, seed):
         vc, vs = rec["view_c"], rec["view_s"]
         m = st.meta
         for who, v in (("client", vc), ("server", vs)):
-            if v["suite"] != m["suite"]:
+            if tls13:
+                if S.ALL_INFOS[v["suite"]].prf != S.ALL_INFOS[m["suite"]].prf:
+                    fails.append("%s: resumed under a suite with another "
+                                 "hash (%04x after %04x)" % (who, v["suite"],
+                                                             m["suite"]))
+            elif v["suite"] != m["suite"]:
                 fails.append("%s: resumed with another suite" % who)
             if v["ems"] != m["ems"] and mech["version"] < (3, 4):
                 fails.append("%s: EMS flag changed on resumption" % who)
